@@ -135,7 +135,10 @@ func Region(id string, c bool) {}
 func Yield() {
 	if YieldHook != nil {
 		YieldHook()
+		return
 	}
+	// natively: give every other goroutine ample opportunity to run
+	time.Sleep(5 * time.Millisecond)
 }
 
 var YieldHook func()
